@@ -158,7 +158,7 @@ pub fn replay(_ctx: &Ctx, case: &str) -> Result<(), String> {
 pub fn run(ctx: &Ctx, rep: &mut Report) {
     let refm = RefModel::new();
     let m = Model { refm: &refm, seed: ctx.seed };
-    let depth = if ctx.thorough() { 5 } else { 3 };
+    let depth = if ctx.thorough() { 6 } else { 4 };
     rep.rule = "state = (reference-model state, digest of the concrete object); transition = one public call (add/encode/decode/reset/recycle) with arguments from an alphabet containing 0, off-by-one, usize::MAX and wrap-around indexes, wrong lengths and several violations at once; every observation must be Ok with the reference bytes, or an Err naming a really violated precondition; non-trivial = transitions whose call violates at least one precondition or completes a round (encode/decode returning bytes); distinct by (start, history)".into();
     rep.assume("shard sizes whose working space cannot be allocated are not exercised (outside the property)");
     rep.assume("state merging: two histories are merged only if model state and verif_digest (configuration, counters, bitmap, every byte of working memory) coincide");
